@@ -101,6 +101,22 @@ CLAIMED.update({
              'recomputes token positions to locate the diagnostic; scanner goroutines left behind are counted.', 'DESIGN.md 4/C12',
              'TLA+ spec (Cdcn.tla) generating inputs and recomputing token positions; outcomes of the real parser judged by TLC'),
 })
+CLAIMED.update({
+ 'C19': cdcn('Registry.tla models the accessor protocol (lock, lookup, insert if absent, unlock) and TLC checks over every interleaving of '
+             '3 processes and 2 type parameters that one class is returned per type and never replaced; on the real code: 264 first-use '
+             'races of 8 goroutines on all 11 accessors for fresh type parameters, and every pair of operation families (String(), '
+             'format/parse, default-ranker sorting of composites, collating, build/mutate/search/iterate) run concurrently in 2, 4 and 16 '
+             'goroutines on disjoint instances with each result compared with the sequential run, the World traces of the concurrent '
+             'runs validated by TLC, all repeated under the Go race detector; TLC judges the records.', 'DESIGN.md 4/C19',
+             'TLA+ model of the class registry checked by TLC + concurrent-vs-sequential runs on disjoint instances judged by TLC (Registry.tla, TraceWorld.tla) + race detector'),
+ 'C20': cdcn('TLC enumerates the matrix {8 kinds} x documented argument forms x content sizes spanning the default capacity x notation '
+             'position from Facade.tla; every cell runs for 7 element types through the module-level constructor, the class-level '
+             'constructor and (source forms) the parser; TLC judges: same kind, contents, order, capacity, collator; refused where the '
+             'class refuses; Association(k, v) has key k and value v.', 'DESIGN.md 4/C20',
+             'TLA+ matrix + law module (Facade.tla): TLC-enumerated cells executed three ways on the real code, outcomes judged by TLC'),
+})
+CLAIMED['C19']['engine'] = 'indep'
+CLAIMED['C20']['engine'] = 'facade'
 NOT_YET = 'check not built yet (work in progress; see DESIGN.md section 10)'
 
 hooks_commits = [l.split()[0] for l in subprocess.run(['git', '-C', '/repo', 'log', '--format=%h %s'], capture_output=True, text=True).stdout.splitlines() if ' verif-hook:' in l]
@@ -121,6 +137,10 @@ m = {
    {'name': 'cdcn', 'path': 'spec/Cdcn.tla spec/cdcn_literals.json lib/cdcnchecks.py harness/cdcnx',
     'serves_properties': [p for p, c in CLAIMED.items() if c['engine'] == 'cdcn'],
     'kind_free_text': 'TLA+ specification of the CDCN grammar, meaning and token positions; TLC generates inputs and judges recorded outcomes of the real parser/formatter'},
+   {'name': 'indep', 'path': 'spec/Registry.tla lib/cdcnchecks.py harness/indepx', 'serves_properties': ['C19'],
+    'kind_free_text': 'TLA+ model of the class registry; concurrent runs on disjoint instances compared with sequential runs, judged by TLC; race detector'},
+   {'name': 'facade', 'path': 'spec/Facade.tla lib/cdcnchecks.py harness/facadex', 'serves_properties': ['C20'],
+    'kind_free_text': 'TLC-enumerated matrix of universal-constructor cells executed three ways, judged by TLC'},
    {'name': 'world', 'path': 'spec/World.tla spec/MCWorld.tla spec/TraceWorld.tla lib/worldeng.py harness/world',
     'serves_properties': [p for p, c in CLAIMED.items() if c['engine'] == 'world'],
     'kind_free_text': 'sequential TLA+ specification of all collection classes; TLC edge export -> replay on real code; TLC trace validation'},
